@@ -52,6 +52,29 @@ stream consumed, written into the case so that a replay rebuilds it).  Oracle: t
 `default` as declared and the cache that was given (DECL), and the other datasets of a reused factory (DECOY).
 Keyword combinations that labrea does not treat by that reading (options={} / default_options={} on a factory that
 has some, dispatch='') are NOT in the violation oracle: `run_probe` records what they do in the evidence.
+
+Directed family "an Option-based dispatch can or cannot be determined" (every run, both tiers): case["disps"][n] may
+carry "ox", a dispatch EXPRESSION built from Options (grammar above `ox_ref`): Option with / without default,
+default_factory, type=, a domain given as a container / predicate / Evaluatable / labrea.functions helper, the string
+form and dotted keys, members of an Option.namespace, WithOptions / WithDefaultOptions / Dataset.with_options pinning
+the key, Option >> f, case, switch, coalesce over such Options.  `ox_ref` computes from the documented reading of the
+expression -- without labrea -- the dispatch value under an options dictionary, or that there is none (and why), and
+the option keys the value was read from.  The model knows nothing of Options: `ox_lowering` hands it, per evaluation,
+a token standing for that reading under a private key @D<n> (a dispatch dataset whose MAP sends the token to the
+value; no token when the value cannot be determined), `ox_fix_line` says the model's observations in the
+implementation's terms again (the private key of a fingerprint replaced by the keys of the reading, "@D<n> is missing"
+by the reading's root cause).  `oform_rows` lists the rows (per way: key absent / present, default inside / outside /
+none, every kind of domain, None and falsy values, templated values, ...), `oform_case` the history of a row: a
+dataset with a default implementation and a callback, an abstract one, an interface with an abstract member, a member
+with a default that implementations override and one they do not, implementations registered under exactly the values
+in play (the out-of-domain default among them).  Oracle: the model correspondence and the property's own reading
+(determinable and registered -> that implementation; determinable and unregistered, or undeterminable -> the default
+implementation, else an EvaluationError).  Every dictionary of a history carries its own value of an option that every
+implementation reads, so that two dictionaries never share a fingerprint: known finding F19 (the keys read by a
+dispatch that then fails are not in the fingerprint) would otherwise return the entry stored under {} for
+{K: <outside the domain>}; that, and Coalesce.keys() naming a member that validates but cannot be evaluated (rows
+marked "nofp": compared without fingerprints), are recorded by `run_probe("option-dispatch")` in the evidence and are
+NOT in the violation oracle.
 """
 import sys
 from pathlib import Path
@@ -76,6 +99,9 @@ SPEC = PropSpec(
         "the reading of the factory keywords used to tell the model what a spelled dataset is: the last explicit "
         "value wins, a keyword omitted or None inherits the factory's (spell_emit)",
         "json.dumps injective on the float-free option values used",
+        "the reading of Option-based dispatch expressions (ox_ref: Option / default / default_factory / domain / "
+        "templates / namespace / WithOptions / >> / case / switch / coalesce as documented), through which the model "
+        "is told the dispatch value of an evaluation or that there is none",
     ],
     assumptions=[
         "implementations, dispatch datasets and callbacks are deterministic functions of the options "
@@ -90,6 +116,10 @@ SPEC = PropSpec(
         "dataset that already holds entries is known finding F24 (exercised in a separate stream)",
         "interface_consistent assumes members are not re-dispatched behind the interface's back "
         "(no set_dispatch on a member, a dataset is a member of one interface)",
+        "Option-dispatch family: two option dictionaries of one history never share a fingerprint (each carries its "
+        "own value of an option every implementation reads): the keys read by a dispatch that then FAILS are not in "
+        "the fingerprint (known finding F19 of C01 / C03; recorded in the evidence, not in the violation oracle), "
+        "nor are those of a coalesce member chosen after one that validates but cannot be evaluated",
         "a dispatch expression that cannot be evaluated fails with an `Exception` subclass (the whole builtin "
         "hierarchy, user classes, labrea's own: the exception table); BaseException-only classes "
         "(KeyboardInterrupt, SystemExit, GeneratorExit) propagate by design and are not generated",
@@ -184,6 +214,12 @@ def to_model(case):
     # a failing dispatch expression ("exc") is, for the model, a dispatch dataset whose key is absent
     disps = [{"key": sp["key"], "map": sp["map"]} for sp in case["disps"]]
     impls = [{k_: v for k_, v in sp.items() if k_ != "sp"} for sp in case["impls"]]
+    if has_ox(case):
+        # an Option-based dispatch expression ("ox") is a dispatch dataset over a private key that carries, per
+        # evaluation, the dispatch value the reference reading determined -- or nothing (see ox_lowering)
+        disps, mopts, _ = ox_lowering(case)
+        evs = iter(k for k, op in enumerate(case["ops"]) if op[0] == "eval")
+        ops = [["eval", op[1], mopts[next(evs)]] if op[0] == "eval" else op for op in ops]
     return {"impls": impls, "disps": disps, "ops": ops}
 
 
@@ -728,6 +764,534 @@ def annotate(case, n, seed):
     return dict(case, ops=ops, impls=impls)
 
 
+# --------------------------------------------------------------------------------------------
+# Option-based dispatch expressions ("ox"): their source through labrea's public API, and -- written from the
+# documentation of Option / WithOptions / case / switch / coalesce / labrea.functions, without labrea -- what
+# they evaluate to under an options dictionary and which option keys that value was read from.
+#
+#   ox  := ["c", v]                                     Value(v) / a plain constant
+#        | ["opt", KEY, spec]                           Option(KEY, ...)
+#        | ["str", KEY]                                 the string form dispatch='KEY' (top level only)
+#        | ["ns", style, KEY, spec]                     a member of an Option.namespace (KEY = 'NS.MEMBER' or
+#                                                       'NS.SUB.MEMBER'); style: "option" an explicit Option in the
+#                                                       class body | "auto" Option.auto(...) | "const" a plain
+#                                                       default value | "ann" an annotation only
+#        | ["with", ox, {options}, force]               WithOptions(ox, options) / WithDefaultOptions(ox, options)
+#        | ["dswith", ox, {options}, force]             a dataset over ox, .with_options / .with_default_options
+#        | ["pipe", ox, fn, style]                      ox >> fn | ox.apply(fn) | ox >> f1 >> f2 (fn: OX_FUNCS)
+#        | ["case", ox, [[pred, res]...], res | None]   case(ox).when(pred, res)....otherwise(res)
+#        | ["switch", ox | ["str", KEY], [[v, res]...], res | None]
+#        | ["coalesce", [ox...]]
+#   spec := {"default": {"d": v} | "default_ox": ox | "factory": {"d": v}, "type": "int" | "str", "tstyle":
+#            "getitem" | "kw", "domain": dom}           (a str default is a template, like a str option value)
+#   dom  := ["cont", kind, [v...]]                      kind: list tuple set frozenset dict value (= Value(list))
+#        | ["range", lo, hi]
+#        | ["pred", name]                               OX_PREDS
+#        | ["ev", ox]                                   an Evaluatable yielding the container (an Option holding
+#                                                       the allowed values, ...)
+#        | ["F", helper, [arg...]]                      labrea.functions: one_of none_of is_in is_not_in eq ne
+#                                                       invert(pred name) negate; an arg may be ["ox", ox]
+#
+# Reading (ox_ref): Option: the key present -> its value (a string value "{OTHER}" is the value of OTHER, a
+# reference to a missing key is an error, not a reason to use the default), else the default (evaluated if it is an
+# Evaluatable, a template if it is a string), else default_factory(), else KeyNotFoundError; `type` is an
+# annotation (nothing enforces it unless a third party handles the request); the value -- provided OR default --
+# must satisfy the domain (in the container / predicate true), else the Option cannot be evaluated (ValueError);
+# a domain that cannot be evaluated, or a predicate that raises, fails the Option as well.  The keys are the
+# option's own when present, those of the default otherwise, those of templates followed and of the domain.
+
+OX_PREDS = {
+    "in-fes": "lambda v: v in ('fast', 'exact', 'slow')",
+    "not-auto-bogus": "lambda v: v not in ('auto', 'bogus')",
+    "eq-fast": "lambda v: v == 'fast'",
+    "eq-exact": "lambda v: v == 'exact'",
+    "eq-auto": "lambda v: v == 'auto'",
+    "is-str": "lambda v: isinstance(v, str)",
+    "not-none": "lambda v: v is not None",
+    "ident": "lambda v: v",
+    "bool": "bool",
+    "islower": "str.islower",
+    "len3+": "lambda v: len(v) > 3",
+    "pos": "lambda v: v > 0",
+    "always": "lambda v: True",
+    "never": "lambda v: False",
+}
+OX_FUNCS = {
+    "swap": "lambda v: {'fast': 'exact', 'exact': 'fast', 'auto': 'bogus'}.get(v, v)",
+    "ident": "lambda v: v",
+    "upper": "lambda v: v.upper()",
+    "lower": "str.lower",
+    "str": "str",
+    "first": "lambda v: v[0]",
+}
+
+
+class _Undet(Exception):
+    pass
+
+
+def _ox_dget(key, o):
+    cur = o
+    for seg in key.split("."):
+        if not isinstance(cur, dict) or seg not in cur:
+            raise KeyError(key)
+        cur = cur[seg]
+    return cur
+
+
+def _ox_has(key, o):
+    try:
+        _ox_dget(key, o)
+        return True
+    except KeyError:
+        return False
+
+
+def _ox_merge(lo, hi):
+    """`hi` laid over `lo`, section by section"""
+    out = dict(lo)
+    for k_, v in hi.items():
+        out[k_] = _ox_merge(out[k_], v) if isinstance(v, dict) and isinstance(out.get(k_), dict) else v
+    return out
+
+
+_OX_TKEY = re.compile(r"\{([^{}]+)\}")
+
+
+def _ox_template(v, o, keys, depth=0):
+    """a string holding {KEY} references: the referenced values filled in (a string that is one reference IS that
+    value); the keys followed are collected; a missing reference cannot be resolved"""
+    if not isinstance(v, str) or depth > 4:
+        return v
+    refs = _OX_TKEY.findall(v)
+    if not refs:
+        return v
+    for r in refs:
+        if not _ox_has(r, o):
+            raise _Undet("KeyError")
+        keys.add(r)
+    if v == "{%s}" % refs[0]:
+        return _ox_template(_ox_dget(refs[0], o), o, keys, depth + 1)
+    for r in refs:
+        v = v.replace("{%s}" % r, str(_ox_template(_ox_dget(r, o), o, keys, depth + 1)))
+    return v
+
+
+def _ox_call(f, *a):
+    try:
+        return f(*a)
+    except Exception as e:  # noqa: BLE001  (user code inside the expression failed: it cannot be evaluated)
+        raise _Undet(type(e).__name__)
+
+
+def _ox_dom_ref(dom, value, o, keys):
+    k = dom[0]
+    if k == "cont":
+        vals = [dec(x) for x in dom[2]]
+        cont = {"list": list, "value": list, "tuple": tuple, "set": set, "frozenset": frozenset,
+                "dict": lambda xs: {x: 1 for x in xs}}[dom[1]](vals)
+        return value in cont
+    if k == "range":
+        return value in range(dom[1], dom[2])
+    if k == "pred":
+        return bool(_ox_call(eval(OX_PREDS[dom[1]]), value))
+    if k == "ev":
+        cont, ks = ox_ref(dom[1], o)
+        keys |= ks
+        return bool(_ox_call(cont, value)) if callable(cont) else _ox_call(lambda: value in cont)
+    if k == "F":
+        args = []
+        for a in dom[2]:
+            if isinstance(a, list) and a and a[0] == "ox":
+                av, ks = ox_ref(a[1], o)
+                keys |= ks
+                args.append(av)
+            else:
+                args.append(dec(a))
+        h = dom[1]
+        if h == "one_of":
+            return value in tuple(args)
+        if h == "none_of":
+            return value not in tuple(args)
+        if h == "is_in":
+            return value in args[0]
+        if h == "is_not_in":
+            return value not in args[0]
+        if h == "eq":
+            return value == args[0]
+        if h == "ne":
+            return value != args[0]
+        if h == "invert":
+            return not _ox_call(eval(OX_PREDS[args[0]]), value)
+        if h == "negate":
+            return bool(_ox_call(lambda v: -v, value))
+    raise ValueError(dom)
+
+
+def _ox_opt_ref(key, spec, o):
+    keys = set()
+    if _ox_has(key, o):
+        keys.add(key)
+        value = _ox_template(_ox_dget(key, o), o, keys)
+    elif "default" in spec:
+        value = dec(spec["default"]["d"])
+        if isinstance(value, str):
+            value = str(_ox_template(value, o, keys))
+    elif "default_ox" in spec:
+        value, ks = ox_ref(spec["default_ox"], o)
+        keys |= ks
+    elif "factory" in spec:
+        value = dec(spec["factory"]["d"])
+    else:
+        raise _Undet("KeyNotFoundError:" + key)
+    if "domain" in spec and not _ox_dom_ref(spec["domain"], value, o, keys):
+        raise _Undet("ValueError")
+    return value, keys
+
+
+def _ox_res_ref(res, o):
+    return ox_ref(res, o)
+
+
+def ox_ref(ox, o):
+    """-> (value, the option keys of `o` it was read from); raises _Undet(root error name)"""
+    k = ox[0]
+    if k == "c":
+        return dec(ox[1]), set()
+    if k == "opt":
+        return _ox_opt_ref(ox[1], ox[2], o)
+    if k == "str":
+        return _ox_opt_ref(ox[1], {}, o)
+    if k == "ns":
+        return _ox_opt_ref(ox[2], ox[3], o)
+    if k in ("with", "dswith"):
+        _, inner, pinned, force = ox
+        seen = _ox_merge(o, pinned) if force else _ox_merge(pinned, o)
+        value, ks = ox_ref(inner, seen)
+        # a key the wrapper supplies is not the caller's
+        return value, {x for x in ks if not (_ox_has(x, pinned) and (force or not _ox_has(x, o)))}
+    if k == "pipe":
+        value, ks = ox_ref(ox[1], o)
+        for fn in ox[2] if isinstance(ox[2], list) else [ox[2]]:
+            value = _ox_call(eval(OX_FUNCS[fn]), value)
+        return value, ks
+    if k == "case":
+        value, ks = ox_ref(ox[1], o)
+        for pred, res in ox[2]:
+            if _ox_call(eval(OX_PREDS[pred]), value):
+                rv, rk = _ox_res_ref(res, o)
+                return rv, ks | rk
+        if ox[3] is None:
+            raise _Undet("CaseWhenError")
+        rv, rk = _ox_res_ref(ox[3], o)
+        return rv, ks | rk
+    if k == "switch":
+        try:
+            value, ks = ox_ref(ox[1], o)
+        except _Undet:
+            if ox[3] is None:
+                raise
+            return _ox_res_ref(ox[3], o)      # the switch's own default, not depending on its dispatch
+        for v, res in ox[2]:
+            if dec(v) == value:
+                rv, rk = _ox_res_ref(res, o)
+                return rv, ks | rk
+        if ox[3] is None:
+            raise _Undet("SwitchError")
+        rv, rk = _ox_res_ref(ox[3], o)
+        return rv, ks | rk
+    if k == "coalesce":
+        last = None
+        for m in ox[1]:
+            try:
+                return ox_ref(m, o)
+            except _Undet as e:
+                last = e
+        raise last
+    raise ValueError(ox)
+
+
+def ox_dispatch_ref(ox, o):
+    """('ok', value, [[key, raw option value]...] sorted) | ('undet', root error name)"""
+    try:
+        value, ks = ox_ref(ox, o)
+    except _Undet as e:
+        return ("undet", e.args[0])
+    return ("ok", value, [[x, _ox_dget(x, o)] for x in sorted(ks)])
+
+
+def _ox_spec_src(spec, g, auto=False):
+    """the arguments after the key of Option(KEY, ...) / of Option.auto(...)"""
+    args = []
+    if "default" in spec:
+        args.append(("" if spec.get("dstyle") == "pos" and not auto else "default=") + py(spec["default"]["d"]))
+    elif "default_ox" in spec:
+        args.append(("" if spec.get("dstyle") == "pos" and not auto else "default=") + ox_src(spec["default_ox"], g))
+    if "factory" in spec:
+        args.append("default_factory=lambda: %s" % py(spec["factory"]["d"]))
+    if "type" in spec and spec.get("tstyle") != "getitem":
+        args.append("type=%s" % spec["type"])
+    if "domain" in spec:
+        args.append("domain=" + _ox_dom_src(spec["domain"], g))
+    return args
+
+
+def _ox_dom_src(dom, g):
+    k = dom[0]
+    if k == "cont":
+        vals = [dec(x) for x in dom[2]]
+        kind = dom[1]
+        if kind in ("list", "tuple"):
+            return repr(vals if kind == "list" else tuple(vals))
+        if kind == "value":
+            return "Value(%r)" % (vals,)
+        if kind == "dict":
+            return "{" + ", ".join("%r: 1" % (x,) for x in vals) + "}"
+        return "%s(%r)" % (kind, vals)
+    if k == "range":
+        return "range(%d, %d)" % (dom[1], dom[2])
+    if k == "pred":
+        return "(%s)" % OX_PREDS[dom[1]]
+    if k == "ev":
+        return ox_src(dom[1], g)
+    if k == "F":
+        if dom[1] == "negate":
+            return "F.negate"
+        if dom[1] == "invert":
+            return "F.invert(%s)" % OX_PREDS[dom[2][0]]
+        args = [ox_src(a[1], g) if isinstance(a, list) and a and a[0] == "ox" else py(a) for a in dom[2]]
+        return "F.%s(%s)" % (dom[1], ", ".join(args))
+    raise ValueError(dom)
+
+
+def _ox_res_src(res, g, plain):
+    return py(res[1]) if res[0] == "c" and plain else ox_src(res, g)
+
+
+def ox_src(ox, g):
+    """python source of the expression; g = {"pre": [module-level lines], "n": [counter], "tag": name prefix}"""
+    k = ox[0]
+
+    def fresh(stem):
+        g["n"][0] += 1
+        return "_%s_%s%d" % (g["tag"], stem, g["n"][0])
+
+    if k == "c":
+        return "Value(%s)" % py(ox[1])
+    if k == "opt":
+        key, spec = ox[1], ox[2]
+        head = "Option[%s]" % spec["type"] if spec.get("tstyle") == "getitem" else "Option"
+        return "%s(%s)" % (head, ", ".join([repr(key)] + _ox_spec_src(spec, g)))
+    if k == "str":
+        return "Option(%r)" % ox[1]
+    if k == "ns":
+        _, style, key, spec = ox
+        path = key.split(".")
+        member = path[-1]
+        if style == "option":
+            line = "%s = Option(%s)" % (member, ", ".join([repr(member)] + _ox_spec_src(spec, g)))
+        elif style == "auto":
+            line = "%s = Option.auto(%s)" % (member, ", ".join(_ox_spec_src(spec, g, auto=True)))
+        elif style == "const":
+            assert set(spec) == {"default"}
+            line = "%s = %s" % (member, py(spec["default"]["d"]))
+        elif style == "ann":
+            assert not spec
+            line = "%s: str" % member
+        else:
+            raise ValueError(style)
+        top = fresh("NS")
+        g["pre"].append("@Option.namespace(%r)" % path[0])
+        g["pre"].append("class %s:" % top)
+        ind = "    "
+        for sub in path[1:-1]:
+            g["pre"].append(ind + "class %s:" % sub)
+            ind += "    "
+        g["pre"].append(ind + line)
+        return ".".join([top] + path[1:])
+    if k == "with":
+        return "%s(%s, %r)" % ("WithOptions" if ox[3] else "WithDefaultOptions", ox_src(ox[1], g), ox[2])
+    if k == "dswith":
+        name = fresh("ds")
+        g["pre"] += ["@dataset", "def %s(x=%s):" % (name, ox_src(ox[1], g)), "    return x"]
+        return "%s.%s(%r)" % (name, "with_options" if ox[3] else "with_default_options", ox[2])
+    if k == "pipe":
+        inner = ox_src(ox[1], g)
+        style = ox[3] if len(ox) > 3 else ">>"
+        if isinstance(ox[2], list):
+            return "(%s)" % " >> ".join([inner] + ["(%s)" % OX_FUNCS[fn] for fn in ox[2]])
+        if style == "apply":
+            return "%s.apply(%s)" % (inner, OX_FUNCS[ox[2]])
+        return "(%s >> (%s))" % (inner, OX_FUNCS[ox[2]])
+    if k == "case":
+        s = "case(%s)" % ox_src(ox[1], g)
+        for n, (pred, res) in enumerate(ox[2]):
+            s += ".when(%s, %s)" % (OX_PREDS[pred], _ox_res_src(res, g, n % 2 == 0))
+        if ox[3] is not None:
+            s += ".otherwise(%s)" % _ox_res_src(ox[3], g, True)
+        return s
+    if k == "switch":
+        disp = repr(ox[1][1]) if ox[1][0] == "str" else ox_src(ox[1], g)
+        tbl = "{" + ", ".join("%s: %s" % (py(v), _ox_res_src(res, g, n % 2 == 0)) for n, (v, res) in enumerate(ox[2])) + "}"
+        return "switch(%s, %s%s)" % (disp, tbl, "" if ox[3] is None else ", " + _ox_res_src(ox[3], g, False))
+    if k == "coalesce":
+        return "coalesce(%s)" % ", ".join(ox_src(m, g) for m in ox[1])
+    raise ValueError(ox)
+
+
+def ox_lines(name, n, ox):
+    """module-level lines binding `name` to the dispatch expression (the string form binds the key itself:
+    `dataset(dispatch=name)` / `interface(name)` then receive a string)"""
+    if ox[0] == "str":
+        return ["%s = %r" % (name, ox[1])]
+    g = {"pre": [], "n": [0], "tag": "ox%d" % n}
+    src = ox_src(ox, g)
+    return g["pre"] + ["%s = %s" % (name, src)]
+
+
+def ox_key(n):
+    """the key under which the model is told the dispatch value of the n-th dispatch expression"""
+    return "@D%d" % n
+
+
+def _plain_keys(case):
+    """the option keys read by implementations and by the plain dispatch forms (flat scalars; the model gets these)"""
+    ks = set()
+
+    def leaf(l):
+        ks.update(k_ for k_, _ in l["reads"])
+
+    for sp in case["impls"]:
+        if sp["k"] == "leaf":
+            leaf(sp)
+        elif sp["k"] == "opt":
+            ks.add(sp["key"])
+        elif sp["k"] == "sw":
+            ks.add(sp["key"])
+            for _, l in sp["tbl"]:
+                leaf(l)
+            if sp.get("dflt") is not None:
+                leaf(sp["dflt"])
+    for n, sp in enumerate(case["disps"]):
+        if sp.get("ox") is None:
+            ks.add(sp["key"])
+
+    def disp(d):
+        if d[0] in ("key", "keyd"):
+            ks.add(d[1])
+
+    for op in case["ops"]:
+        if op[0] in ("new", "setd", "iface"):
+            disp(op[2])
+    return ks
+
+
+def ox_lowering(case):
+    """for a case with Option-based dispatch expressions: what the model is told.  -> (disps for the model,
+    {op index: options for the model}, {op index: {n: reading}}) with reading = ox_dispatch_ref + the token.
+    The n-th expression becomes the dispatch dataset over the private key @D<n> whose MAP sends a token to the
+    dispatch value; an evaluation's options carry the token (one per distinct reading: value and the keys it came
+    from) when the value can be determined and nothing when it cannot; the keys only the expression reads are
+    left out (the model's dictionaries are flat) and come back through `ox_fix_line`."""
+    plain = _plain_keys(case)
+    disps, maps = [], {}
+    for n, sp in enumerate(case["disps"]):
+        if sp.get("ox") is None:
+            disps.append({"key": sp["key"], "map": sp["map"]})
+        else:
+            maps[n] = {}
+            disps.append({"key": ox_key(n), "map": []})
+    opts, readings = {}, {}
+    for k, op in enumerate(case["ops"]):
+        if op[0] != "eval":
+            continue
+        mo = {a: b for a, b in op[2].items() if a in plain}
+        readings[k] = {}
+        for n in maps:
+            r = ox_dispatch_ref(case["disps"][n]["ox"], op[2])
+            if r[0] == "ok":
+                if any(a in plain for a, _ in r[2]):
+                    raise AssertionError("a dispatch expression shares a key with an implementation: %r" % (r[2],))
+                ident = json.dumps([enc(r[1]), r[2]], sort_keys=True, default=repr)
+                tok = maps[n].setdefault(ident, ("tok%d" % len(maps[n]), r[1]))[0]
+                mo[ox_key(n)] = tok
+                r = r + (tok,)
+            readings[k][n] = r
+        opts[k] = mo
+    for n, m in maps.items():
+        disps[n]["map"] = [[tok, enc(v)] for tok, v in m.values()]
+    return disps, opts, readings
+
+
+def _split_top(s):
+    """split the inside of a printed fingerprint at its top-level commas"""
+    out, depth, quote, cur = [], 0, False, ""
+    for ch in s:
+        if ch == '"':
+            quote = not quote
+        elif not quote and ch in "[(":
+            depth += 1
+        elif not quote and ch in "])":
+            depth -= 1
+        if ch == "," and depth == 0 and not quote:
+            out.append(cur)
+            cur = ""
+        else:
+            cur += ch
+    if cur:
+        out.append(cur)
+    return out
+
+
+def ox_fix_line(case, line):
+    """the model's observations of a lowered case, said in the implementation's terms: the private key @D<n> of a
+    fingerprint is replaced by the option keys the reference reading took the dispatch value from, "the key
+    @D<n> is missing" by the root cause of that reading's failure"""
+    _, _, readings = ox_lowering(case)
+    parts = line.split(" | ")
+    evs = [k for k, op in enumerate(case["ops"]) if op[0] == "eval"]
+    idx = [j for j, p in enumerate(parts) if p.startswith(("val=", "err="))]
+    if len(evs) != len(idx):
+        return line
+    for k, j in zip(evs, idx):
+        p = parts[j]
+        for n, r in readings[k].items():
+            key = ox_key(n)
+            if r[0] == "undet":
+                if p == "err=KeyNotFoundError:" + key:
+                    p = "err=" + r[1]
+                continue
+            i = p.rfind(" fp=[")
+            if i < 0 or not p.endswith("]"):
+                continue
+            ents = _split_top(p[i + 5:-1])
+            mine = '%s="%s"' % (key, r[3])
+            if mine not in ents:
+                continue
+            ents.remove(mine)
+            ents += ["%s=%s" % (a, canon(b)) for a, b in r[2]]
+            ents.sort(key=lambda e: e.split("=", 1)[0])
+            p = p[:i + 5] + ",".join(ents) + "]"
+        parts[j] = p
+    return " | ".join(parts)
+
+
+def has_ox(case):
+    return any(sp.get("ox") is not None for sp in case["disps"])
+
+
+_FP = re.compile(r" fp=\[[^|]*?\](?= \| |$)")
+
+
+def obs_differ(case, impl_obs, model_line):
+    """do the implementation and the model disagree on a history?  A dispatch expression marked "nofp" (a recorded
+    deviation of labrea's keys() from the documented reading, see OX_DEVIATIONS) is compared without the
+    fingerprints: values, failures and hit-or-miss only"""
+    if any(sp.get("nofp") for sp in case["disps"]):
+        return _FP.sub("", impl_obs) != _FP.sub("", model_line)
+    return impl_obs != model_line
+
+
 class Gen:
     """generates the program for one case"""
 
@@ -981,6 +1545,9 @@ class Gen:
                 self.emit(*row["pre"])
                 self.emit(*xdisp_lines("dd%d" % n, n, sp["key"], mp, row, sp.get("form", "dataset")))
                 continue
+            if sp.get("ox") is not None:
+                self.emit(*ox_lines("dd%d" % n, n, sp["ox"]))
+                continue
             self.emit("@dataset", "def dd%d(x=Option(%r)):" % (n, sp["key"]), "    return %s.get(x, x)" % mp)
         cbs = set()
         for op in self.case["ops"]:
@@ -1047,10 +1614,6 @@ class Gen:
 # the runner (executed in a subprocess with PYTHONPATH=REPO): builds and runs the programs
 
 
-class _Undet(Exception):
-    pass
-
-
 def ref_dispatch(case, disp, o):
     """the dispatch value computed without labrea: ('ok', value) | ('undet', error name)"""
     k = disp[0]
@@ -1062,6 +1625,8 @@ def ref_dispatch(case, disp, o):
         return ("ok", o.get(disp[1], dec(disp[2])))
     if k == "ds":
         sp = case["disps"][disp[1]]
+        if sp.get("ox") is not None:      # an Option-based expression: its documented reading
+            return ox_dispatch_ref(sp["ox"], o)[:2]
         if sp["key"] not in o:
             if sp.get("exc") is not None:      # the expression itself fails, in user code
                 return ("undet", EXC[sp["exc"]]["errname"])
@@ -1165,7 +1730,8 @@ class Ref:
 RUNTIME_SRC = r'''
 import sys
 from labrea import dataset, abstractdataset, Option, interface, implements
-from labrea import Overloaded, switch, coalesce, pipeline_step
+from labrea import Overloaded, switch, coalesce, pipeline_step, case, WithOptions, WithDefaultOptions
+import labrea.functions as F
 from labrea.types import Value
 from labrea.cache import MemoryCache
 from labrea.application import FunctionApplication
@@ -1229,6 +1795,8 @@ def SNAP(*ifaces):
     return out
 '''
 
+RUNTIME_CODE = compile(RUNTIME_SRC, "<C07 runtime>", "exec")      # (compiled once: it is executed for every fresh object)
+
 
 def run_case(case, want_src=False):
     """build and run one case on the labrea found on sys.path; returns the result dict"""
@@ -1238,7 +1806,7 @@ def run_case(case, want_src=False):
     fails = []
     OBS, COUNT, BOUND, IFACES, OPIDX = [], {}, {}, {}, [0]
     ns = {"re": re}
-    exec(RUNTIME_SRC, ns)
+    exec(RUNTIME_CODE, ns)
     ns.update(OBS=OBS, COUNT=COUNT, BOUND=BOUND, IFACES=IFACES, OPIDX=OPIDX)
     fresh_code = {}
 
@@ -1255,7 +1823,7 @@ def run_case(case, want_src=False):
             fresh_code[i] = (compile("\n".join(pre + sub.lines) + "\n", "<fresh i%d>" % i, "exec"), name)
         code, name = fresh_code[i]
         fns = {"re": re}
-        exec(RUNTIME_SRC, fns)
+        exec(RUNTIME_CODE, fns)
         fns["COUNT"] = {}
         exec(code, fns)
         try:
@@ -1480,7 +2048,7 @@ def xprogram(xc):
 def run_xcase(xc, want_src=False):
     src, evals = xprogram(xc)
     ns = {"re": re}
-    exec(RUNTIME_SRC, ns)
+    exec(RUNTIME_CODE, ns)
     limit0 = sys.getrecursionlimit()
     fails, obs, outs = [], [], []
     crash = None
@@ -1536,20 +2104,48 @@ PROBES = [
 ]
 
 
-def run_probe():
-    """keyword combinations that are NOT in the violation oracle: what labrea does with them is recorded in the
-    evidence next to the reading the spelling table uses elsewhere"""
+OX_PROBES = [
+    # deviations of the unchanged labrea from the documented reading that the Option-dispatch family met; they are
+    # kept out of the violation oracle (see oform_case / "nofp") and recorded here on every run
+    ("F19 inside C07: @dataset(dispatch=Option('K', 'fast', domain=['fast', 'exact'])) with 'fast' registered, "
+     "evaluated under {} and then under {'K': 'bogus'}",
+     "{'K': 'bogus'} violates the domain: the dispatch cannot be determined -> the default implementation ('dflt',); "
+     "('ix',) is the entry stored under {} (a dispatch that FAILS contributes no keys to the fingerprint: known "
+     "finding F19 of C01/C03; here a value stored for one dispatch value is returned for another)",
+     ["ds = dataset(dispatch=Option('K', 'fast', domain=['fast', 'exact']))(_f)", "ds.register('fast', Value(('ix',)))",
+      "OUT = (ds({}), ds({'K': 'bogus'}), ds.fingerprint({}), ds.fingerprint({'K': 'bogus'}))"]),
+    ("coalesce as dispatch, first member an Option whose default is outside its domain: "
+     "dataset(dispatch=coalesce(Option('K', 'auto', domain=['fast', 'exact']), Option('K2'))) with 'fast' and 'exact' "
+     "registered, evaluated under {'K2': 'fast'} and then under {'K2': 'exact'}",
+     "the first member cannot be evaluated, the value is K2's: ('ix',) then ('iy',), fingerprints naming K2; labrea's "
+     "Coalesce.keys() returns the keys of the first member that VALIDATES, and Option.validate / Option.keys accept an "
+     "absent key whose default is outside the domain (evaluate rejects it): the fingerprint is [] for both",
+     ["ds = dataset(dispatch=coalesce(Option('K', 'auto', domain=['fast', 'exact']), Option('K2')))(_f)",
+      "ds.register('fast', Value(('ix',)))", "ds.register('exact', Value(('iy',)))",
+      "OUT = (ds({'K2': 'fast'}), ds({'K2': 'exact'}), ds.fingerprint({'K2': 'fast'}), ds.fingerprint({'K2': 'exact'}))"]),
+    ("Option('K', 'auto', domain=['fast', 'exact']) under {}: validate / keys / evaluate",
+     "evaluate fails (the default is outside the domain); validate and keys would have to fail with it",
+     ["o = Option('K', 'auto', domain=['fast', 'exact'])", "OUT = [o.validate({}), sorted(o.keys({}))]", "o.evaluate({})"]),
+]
+
+
+def run_probe(which="factory-keywords"):
+    """combinations that are NOT in the violation oracle: what labrea does with them is recorded in the
+    evidence next to the reading the spelling table / the Option-dispatch family uses elsewhere"""
     out = []
-    for what, reading, prog in PROBES:
+    for what, reading, prog in (OX_PROBES if which == "option-dispatch" else PROBES):
         ns = {"re": re}
-        exec(RUNTIME_SRC, ns)
+        exec(RUNTIME_CODE, ns)
         exec("def _f():\n    return ('dflt',)\ndef _g(a):\n    return ('dflt', a)\n", ns)
         try:
             exec("\n".join(prog) + "\n", ns)
             seen = repr(ns.get("OUT"))
         except Exception as e:  # noqa: BLE001
             seen = "%r, then %s: %s" % (ns.get("OUT"), type(e).__name__, str(e)[:80])
-        out.append({"spelling": what, "last_explicit_value_wins_reading": reading, "observed": seen})
+        if which == "option-dispatch":
+            out.append({"program": what, "documented_reading": reading, "observed": seen})
+        else:
+            out.append({"spelling": what, "last_explicit_value_wins_reading": reading, "observed": seen})
     return {"obs": "", "fails": [], "probe": out}
 
 
@@ -1562,7 +2158,7 @@ def runner_main():
         case = json.loads(line)
         try:
             if "probe" in case:
-                res = run_probe()
+                res = run_probe(case["probe"])
             else:
                 res = run_xcase(case["x"], want_src) if "x" in case else run_case(case, want_src)
         except Exception as e:  # noqa: BLE001
@@ -1576,7 +2172,9 @@ def run_impl(cases, want_src=False):
     """run the cases on the labrea in REPO (subprocess); one result dict per case"""
     if not cases:
         return []
-    env = dict(os.environ)
+    # (only what the runner needs: confectioner copies the whole environment at every resolve() of an option value)
+    env = {k_: v for k_, v in os.environ.items()
+           if k_ in ("PATH", "HOME", "LANG", "TMPDIR", "USER") or k_.startswith(("VERIF_", "PYTHON", "LC_"))}
     env["PYTHONPATH"] = str(REPO) + os.pathsep + str(Path(__file__).resolve().parent.parent)
     env["PYTHONDONTWRITEBYTECODE"] = "1"
     cmd = [PY, "-B", str(Path(__file__).resolve()), "--runner"] + (["--src"] if want_src else [])
@@ -1610,6 +2208,8 @@ def run_model(cases):
         for sp in c["disps"]:
             if sp.get("exc") is not None:
                 line = line.replace("err=KeyNotFoundError:%s" % sp["key"], "err=" + EXC[sp["exc"]]["errname"])
+        if has_ox(c):
+            line = ox_fix_line(c, line)
         out.append(line)
     return out
 
@@ -2033,6 +2633,330 @@ def exc_direct_cases(seed, thorough):
     return cs
 
 
+# --------------------------------------------------------------------------------------------
+# directed family "an Option-based dispatch can or cannot be determined" (every run, both tiers)
+
+DOM = ["fast", "exact", "slow"]          # the domain in play: 'slow' is allowed but never registered
+REG = ["fast", "exact", "auto", "bogus"]  # registered: two allowed values, the out-of-domain default, another outsider
+
+
+def oform_rows():
+    """rows {"id", "way", "ox", "evals": [options...], "reg": [values registered]}: every way an Option-based
+    dispatch turns out determinable or not.  The option dictionaries of a row are chosen so that, by the reference
+    reading, the row meets the situations its `way` names; `oform_cases` checks that on every run."""
+    rows = []
+
+    def row(way, id_, ox, evals, reg=None, nofp=None):
+        rows.append({"id": id_, "way": way, "ox": ox, "evals": evals, "reg": REG if reg is None else reg, "nofp": nofp})
+
+    def opt(key="ENGINE", **spec):
+        return ["opt", key, spec]
+
+    D = {"d": "auto"}       # the default outside the domain
+    Din = {"d": "fast"}     # a default inside it
+    std = [{}, {"ENGINE": "fast"}, {"ENGINE": "slow"}, {"ENGINE": "bogus"}, {"ENGINE": "auto"}, {"A": 1},
+           {"ENGINE": "exact", "A": 1}]
+    # -- no domain: key absent without / with default, None and falsy values present
+    falsy = [{}, {"ENGINE": "fast"}, {"ENGINE": "slow"}, {"ENGINE": None}, {"ENGINE": 0}, {"ENGINE": False},
+             {"ENGINE": ""}, {"ENGINE": 1}, {"A": 1}]
+    freg = ["fast", None, 0, "", "auto"]
+    row("no default", "Option(K)", opt(), falsy, freg)
+    row("no default", "dispatch='K'", ["str", "ENGINE"], falsy, freg)
+    row("default, no domain", "Option(K, 'auto')", opt(default=D), falsy, freg)
+    row("default, no domain", "Option(K, default=None)", opt(default={"d": None}), falsy, freg)
+    row("default, no domain", "Option(K, 0)", opt(default={"d": 0}, dstyle="pos"), falsy, freg)
+    row("default, no domain", "Option(K, '')", opt(default={"d": ""}, dstyle="pos"), falsy, freg)
+    row("default, no domain", "Option(K, default=Option(K2, 'auto'))",
+        opt(default_ox=opt("ENGINE2", default=D)), falsy + [{"ENGINE2": "fast"}, {"ENGINE2": None}], freg)
+    row("default_factory", "Option(K, default_factory=lambda: 'auto')", opt(factory=D), falsy, freg)
+    row("default_factory", "Option(K, default='fast', default_factory=lambda: 'auto')",
+        opt(default=Din, factory=D), falsy, freg)
+    # -- a domain given as a container: default outside / inside / none
+    for kind in ("list", "tuple", "set", "frozenset", "dict", "value"):
+        dom = ["cont", kind, DOM]
+        row("container domain, default outside", "Option(K, 'auto', domain=%s)" % kind, opt(default=D, domain=dom), std)
+        row("container domain, default inside", "Option(K, 'fast', domain=%s)" % kind, opt(default=Din, domain=dom), std)
+        row("container domain, no default", "Option(K, domain=%s)" % kind, opt(domain=dom), std)
+    row("container domain, default outside", "Option(K, None, domain=list)  [None as the sentinel]",
+        opt(default={"d": None}, domain=["cont", "list", DOM]), std + [{"ENGINE": None}], REG + [None])
+    row("container domain, default outside", "Option(K, default_factory=lambda: 'auto', domain=list)",
+        opt(factory=D, domain=["cont", "list", DOM]), std)
+    row("container domain, default inside", "Option(K, default_factory=lambda: 'exact', domain=tuple)",
+        opt(factory={"d": "exact"}, domain=["cont", "tuple", DOM]), std)
+    row("container domain, default outside", "Option(K, default=Option(K2, 'auto'), domain=list)",
+        opt(default_ox=opt("ENGINE2", default=D), domain=["cont", "list", DOM]),
+        std + [{"ENGINE2": "fast"}, {"ENGINE2": "bogus"}, {"ENGINE2": "slow"}])
+    # -- a domain given as a predicate
+    for pred in ("in-fes", "not-auto-bogus"):
+        row("predicate domain, default outside", "Option(K, 'auto', domain=<%s>)" % pred, opt(default=D, domain=["pred", pred]), std)
+        row("predicate domain, default inside", "Option(K, 'fast', domain=<%s>)" % pred, opt(default=Din, domain=["pred", pred]), std)
+        row("predicate domain, no default", "Option(K, domain=<%s>)" % pred, opt(domain=["pred", pred]), std)
+    row("predicate domain, default outside", "Option(K, None, domain=str.islower)  [the predicate raises on the default]",
+        opt(default={"d": None}, domain=["pred", "islower"]), std + [{"ENGINE": "FAST"}, {"ENGINE": None}], REG + [None, "FAST"])
+    row("predicate domain, default outside", "Option(K, 'abc', domain=len(v) > 3)",
+        opt(default={"d": "abc"}, domain=["pred", "len3+"]), std + [{"ENGINE": "abc"}, {"ENGINE": 5}], REG + ["abc", 5])
+    row("predicate domain, default inside", "Option(K, 'auto', domain=always)", opt(default=D, domain=["pred", "always"]), std)
+    row("predicate domain, default outside", "Option(K, 'auto', domain=never)", opt(default=D, domain=["pred", "never"]), std)
+    # -- None / falsy values against a domain
+    fz = [{}, {"ENGINE": None}, {"ENGINE": 0}, {"ENGINE": False}, {"ENGINE": ""}, {"ENGINE": "fast"}, {"ENGINE": 1},
+          {"ENGINE": True}, {"A": 1}]
+    fzreg = [None, 0, "", "fast", "auto", 1]
+    row("falsy values", "Option(K, 'auto', domain=[None, 0, 'fast'])",
+        opt(default=D, domain=["cont", "list", [None, 0, "fast"]]), fz, fzreg)
+    row("falsy values", "Option(K, None, domain=['', 1, 'fast'])",
+        opt(default={"d": None}, domain=["cont", "tuple", ["", 1, "fast"]]), fz, fzreg)
+    row("falsy values", "Option(K, 0, domain=<truthy>)", opt(default={"d": 0}, dstyle="pos", domain=["pred", "ident"]), fz, fzreg)
+    row("falsy values", "Option(K, '', domain=bool)", opt(default={"d": ""}, domain=["pred", "bool"]), fz, fzreg)
+    row("falsy values", "Option(K, 'auto', domain=<is not None>)", opt(default=D, domain=["pred", "not-none"]), fz, fzreg)
+    row("falsy values", "Option(K, None, domain=<is not None>)", opt(default={"d": None}, domain=["pred", "not-none"]), fz, fzreg)
+    row("falsy values", "Option(K, False, domain=[0])  [False == 0]", opt(default={"d": False}, domain=["cont", "list", [0]]), fz, fzreg)
+    row("falsy values", "Option(K, 0, domain=range(1, 3))", opt(default={"d": 0}, domain=["range", 1, 3]), fz, fzreg + [2])
+    # -- a domain given as an Evaluatable: an Option holding the allowed values, present and absent
+    allowed = [{"ALLOWED": ["fast", "auto"]}, {"ALLOWED": ["fast", "auto"], "ENGINE": "exact"},
+               {"ALLOWED": ["exact", "bogus"], "ENGINE": "bogus"}, {"ALLOWED": [], "ENGINE": "fast"}, {"ALLOWED": ["slow", "auto"], "A": 1},
+               {"ALLOWED": ["fast"]}]
+    for dflt, w in ((D, "outside"), (Din, "inside"), (None, None)):
+        sp = {} if dflt is None else {"default": dflt}
+        way = "evaluatable domain, " + ("no default" if dflt is None else "default " + w)
+        lab = "Option(K%s, " % ("" if dflt is None else ", %r" % dflt["d"])
+        row(way, lab + "domain=Option(ALLOWED))", opt(domain=["ev", opt("ALLOWED")], **sp), std + allowed)
+        row(way, lab + "domain=Option(ALLOWED, [...]))", opt(domain=["ev", opt("ALLOWED", default={"d": DOM})], **sp), std + allowed)
+    row("evaluatable domain, default outside", "Option(K, 'auto', domain=Option(P.ALLOWED, [...]))  [dotted]",
+        opt(default=D, domain=["ev", opt("P.ALLOWED", default={"d": DOM})]),
+        std + [{"P": {"ALLOWED": ["auto"]}}, {"P": {"ALLOWED": ["auto"]}, "ENGINE": "fast"}, {"P": {}}])
+    row("evaluatable domain, default outside", "Option(K, 'auto', domain=Option(ALLOWED, [...]) >> f)",
+        opt(default=D, domain=["ev", ["pipe", opt("ALLOWED", default={"d": DOM}), "ident"]]), std + allowed)
+    # -- a domain given as a labrea.functions helper
+    helpers = [("F.one_of('fast', 'exact', 'slow')", ["F", "one_of", DOM]),
+               ("F.none_of('auto', 'bogus')", ["F", "none_of", ["auto", "bogus"]]),
+               ("F.is_in([...])", ["F", "is_in", [DOM]]),
+               ("F.is_not_in(['auto', 'bogus'])", ["F", "is_not_in", [["auto", "bogus"]]]),
+               ("F.invert(<is auto>)", ["F", "invert", ["eq-auto"]]),
+               ("F.ne('auto')", ["F", "ne", ["auto"]])]
+    for lab, dom in helpers:
+        row("helper domain, default outside", "Option(K, 'auto', domain=%s)" % lab, opt(default=D, domain=dom), std)
+    for lab, dom in helpers[:2]:
+        row("helper domain, default inside", "Option(K, 'fast', domain=%s)" % lab, opt(default=Din, domain=dom), std)
+        row("helper domain, no default", "Option(K, domain=%s)" % lab, opt(domain=dom), std)
+    row("helper domain, default inside", "Option(K, 'fast', domain=F.eq('fast'))", opt(default=Din, domain=["F", "eq", ["fast"]]), std)
+    row("helper domain, default outside", "Option(K, 'auto', domain=F.one_of(Option(FIRST, 'fast'), 'exact'))",
+        opt(default=D, domain=["F", "one_of", [["ox", opt("FIRST", default=Din)], "exact"]]),
+        std + [{"FIRST": "auto"}, {"FIRST": "auto", "ENGINE": "fast"}, {"FIRST": "bogus", "ENGINE": "bogus", "A": 1}])
+    ints = [{}, {"ENGINE": 1}, {"ENGINE": 2}, {"ENGINE": 0}, {"ENGINE": -1}, {"ENGINE": True}, {"ENGINE": "fast"}, {"A": 1}]
+    row("helper domain, default outside", "Option(K, 0, domain=F.negate)  [-v is the verdict; raises on a string]",
+        opt(default={"d": 0}, domain=["F", "negate", []]), ints, [0, 1, -1, "fast"])
+    row("helper domain, default inside", "Option(K, 2, domain=F.negate)", opt(default={"d": 2}, domain=["F", "negate", []]), ints, [0, 1, -1, "fast"])
+    # -- type= annotations
+    row("type annotation", "Option[int](K, 0, domain=[1, 2])",
+        opt(default={"d": 0}, dstyle="pos", type="int", tstyle="getitem", domain=["cont", "list", [1, 2]]), ints, [0, 1, -1, "fast"])
+    row("type annotation", "Option[int](K, 1, domain=<positive>)",
+        opt(default={"d": 1}, type="int", tstyle="getitem", domain=["pred", "pos"]), ints, [0, 1, -1, "fast"])
+    row("type annotation", "Option(K, 'auto', type=str, domain=list)", opt(default=D, type="str", domain=["cont", "list", DOM]),
+        std + [{"ENGINE": 1}], REG + [1])
+    row("type annotation", "Option[str](K, 'fast', domain=list)", opt(default=Din, type="str", tstyle="getitem", domain=["cont", "list", DOM]), std)
+    row("type annotation", "Option[int](K)  [a string is provided]", opt(type="int", tstyle="getitem"), falsy, freg)
+    row("type annotation", "Option(K, 'auto', type=int)  [the default is no int]", opt(default=D, type="int"), falsy, freg)
+    # -- templated values
+    tpl = [{"ENGINE": "{OTHER}", "OTHER": "fast"}, {"ENGINE": "{OTHER}", "OTHER": "slow"}, {"ENGINE": "{OTHER}"},
+           {"ENGINE": "{OTHER}", "OTHER": "bogus"}, {"ENGINE": "{OTHER}", "OTHER": "auto", "A": 1}, {"OTHER": "fast"},
+           {"ENGINE": "{P.Q}", "P": {"Q": "exact"}}, {"ENGINE": "{P.Q}", "P": {}}, {"ENGINE": "x-{OTHER}", "OTHER": "fast"},
+           {"ENGINE": "{OTHER}", "OTHER": None}, {"ENGINE": "{OTHER}", "OTHER": 1}]
+    treg = REG + ["x-fast", None, 1]
+    row("templated value", "Option(K)  ['{OTHER}' provided]", opt(), std + tpl, treg)
+    row("templated value", "dispatch='K'  ['{OTHER}' provided]", ["str", "ENGINE"], std + tpl, treg)
+    row("templated value", "Option(K, 'fast')  ['{OTHER}' provided]", opt(default=Din, dstyle="pos"), std + tpl, treg)
+    row("templated value", "Option(K, 'auto', domain=list)  ['{OTHER}' provided]", opt(default=D, domain=["cont", "list", DOM]), std + tpl, treg)
+    row("templated value", "Option(K, '{OTHER}')  [the default is a template]", opt(default={"d": "{OTHER}"}),
+        std + tpl + [{"OTHER": "slow"}, {"OTHER": 1}, {"OTHER": "auto", "A": 1}], treg + ["1"])
+    row("templated value", "Option(K, '{OTHER}', domain=list)", opt(default={"d": "{OTHER}"}, domain=["cont", "list", DOM]),
+        std + tpl + [{"OTHER": "slow"}, {"OTHER": "auto"}, {"OTHER": "bogus", "A": 1}], treg)
+    # -- dotted keys
+    dot = [{}, {"S": {}}, {"S": {"ENGINE": "fast"}}, {"S": {"ENGINE": "slow"}}, {"S": {"ENGINE": "bogus"}}, {"S": {"ENGINE": "auto"}, "A": 1},
+           {"S": {"OTHER": "fast"}}, {"S": {"ENGINE": None}}, {"ENGINE": "fast"}, {"S": {"ENGINE": "{S.OTHER}", "OTHER": "exact"}}]
+    row("dotted key", "dispatch='S.K'", ["str", "S.ENGINE"], dot, REG + [None])
+    row("dotted key", "Option('S.K')", opt("S.ENGINE"), dot, REG + [None])
+    row("dotted key", "Option('S.K', 'auto', domain=list)", opt("S.ENGINE", default=D, domain=["cont", "list", DOM]), dot, REG + [None])
+    row("dotted key", "Option('S.K', 'fast', domain=<pred>)", opt("S.ENGINE", default=Din, domain=["pred", "in-fes"]), dot, REG + [None])
+    # -- members of an Option.namespace
+    nso = [{}, {"NS": {}}, {"NS": {"ENGINE": "fast"}}, {"NS": {"ENGINE": "slow"}}, {"NS": {"ENGINE": "bogus"}},
+           {"NS": {"ENGINE": "auto"}, "A": 1}, {"ENGINE": "fast"}, {"NS": {"ENGINE": None}}]
+    row("namespace member", "NS.K  [K = Option(K, 'auto', domain=list)]",
+        ["ns", "option", "NS.ENGINE", {"default": D, "domain": ["cont", "list", DOM]}], nso, REG + [None])
+    row("namespace member", "NS.K  [K = Option(K, 'fast', domain=<pred>)]",
+        ["ns", "option", "NS.ENGINE", {"default": Din, "domain": ["pred", "in-fes"]}], nso, REG + [None])
+    row("namespace member", "NS.K  [K = Option(K, domain=tuple)]", ["ns", "option", "NS.ENGINE", {"domain": ["cont", "tuple", DOM]}], nso, REG + [None])
+    row("namespace member", "NS.K  [K = Option.auto('auto', domain=list)]",
+        ["ns", "auto", "NS.ENGINE", {"default": D, "domain": ["cont", "list", DOM]}], nso, REG + [None])
+    row("namespace member", "NS.K  [K = Option.auto(domain=F.one_of(...))]", ["ns", "auto", "NS.ENGINE", {"domain": ["F", "one_of", DOM]}], nso, REG + [None])
+    row("namespace member", "NS.K  [K = 'auto']", ["ns", "const", "NS.ENGINE", {"default": D}], nso, REG + [None])
+    row("namespace member", "NS.K  [K: str]", ["ns", "ann", "NS.ENGINE", {}], nso, REG + [None])
+    nso2 = [{}, {"NS": {"SUB": {}}}, {"NS": {"SUB": {"ENGINE": "fast"}}}, {"NS": {"SUB": {"ENGINE": "slow"}}},
+            {"NS": {"SUB": {"ENGINE": "bogus"}}}, {"NS": {"ENGINE": "fast"}, "A": 1}, {"NS": {"SUB": {"ENGINE": "auto"}}}]
+    row("namespace member", "NS.SUB.K  [K = Option(K, 'auto', domain=list) in a nested class]",
+        ["ns", "option", "NS.SUB.ENGINE", {"default": D, "domain": ["cont", "list", DOM]}], nso2)
+    row("namespace member", "NS.SUB.K  [K = Option.auto('fast', domain=<pred>) in a nested class]",
+        ["ns", "auto", "NS.SUB.ENGINE", {"default": Din, "domain": ["pred", "not-auto-bogus"]}], nso2)
+    # -- the dispatch key pinned by WithOptions / WithDefaultOptions / Dataset.with_options
+    base = opt(default=D, domain=["cont", "list", DOM])
+    evb = opt(default=D, domain=["ev", opt("ALLOWED", default={"d": DOM})])
+    for kind in ("with", "dswith"):
+        nm = {("with", True): "WithOptions", ("with", False): "WithDefaultOptions",
+              ("dswith", True): "dataset.with_options", ("dswith", False): "dataset.with_default_options"}
+        for force in (True, False):
+            for pin in ("fast", "slow", "bogus", "auto"):
+                row("pinned dispatch key", "%s(Option(K, 'auto', domain=list), {K: %r})" % (nm[kind, force], pin),
+                    [kind, base, {"ENGINE": pin}, force], std)
+            row("pinned dispatch key", "%s(Option(K, 'auto', domain=list), {UNRELATED: 1})" % nm[kind, force],
+                [kind, base, {"UNRELATED": 1}, force], std)
+            row("pinned dispatch key", "%s(Option(K, 'auto', domain=Option(ALLOWED, [...])), {ALLOWED: ['auto', 'exact']})" % nm[kind, force],
+                [kind, evb, {"ALLOWED": ["auto", "exact"]}, force], std + allowed)
+            row("pinned dispatch key", "%s(Option(K), {K: 'fast'})" % nm[kind, force], [kind, opt(), {"ENGINE": "fast"}, force], std)
+    # -- Option(...) >> f
+    for fn, style in (("swap", ">>"), ("ident", "apply"), (["ident", "swap"], ">>"), ("upper", ">>")):
+        lab = fn if isinstance(fn, str) else " >> ".join(fn)
+        row("Option >> f", "Option(K, 'auto', domain=list) %s %s" % (style, lab), ["pipe", base, fn, style], std, REG + ["FAST", "AUTO"])
+        row("Option >> f", "Option(K, 'fast', domain=<pred>) %s %s" % (style, lab),
+            ["pipe", opt(default=Din, domain=["pred", "in-fes"]), fn, style], std, REG + ["FAST", "AUTO"])
+    row("Option >> f", "Option(K, None) >> upper  [f raises on the default]", ["pipe", opt(default={"d": None}), "upper", ">>"], falsy,
+        ["FAST", None, "", "auto"])
+    row("Option >> f", "Option(K, 'auto') >> swap  [no domain: 'auto' is mapped]", ["pipe", opt(default=D), "swap", ">>"], std)
+    # -- case(...)
+    whens = [["eq-fast", ["c", "exact"]], ["eq-auto", ["c", "auto"]], ["eq-exact", opt("WHEN_EXACT", default=Din)]]
+    cev = std + [{"ENGINE": "exact", "WHEN_EXACT": "bogus"}, {"WHEN_EXACT": "auto"}]
+    row("case over an Option", "case(Option(K, 'auto', domain=list)).when(...)", ["case", base, whens, None], cev)
+    row("case over an Option", "case(Option(K, 'auto', domain=list)).when(...).otherwise('fast')", ["case", base, whens, ["c", "fast"]], cev)
+    row("case over an Option", "case(Option(K, 'fast', domain=list)).when(...).otherwise('auto')",
+        ["case", opt(default=Din, domain=["cont", "list", DOM]), whens, ["c", "auto"]], cev)
+    row("case over an Option", "case(Option(K, 'auto')).when(...)  [no domain]", ["case", opt(default=D), whens, None], cev)
+    row("case over an Option", "case(Option(K)).when(...).otherwise(Option(K2, 'auto', domain=list))",
+        ["case", opt(), whens, opt("ENGINE2", default=D, domain=["cont", "list", DOM])], cev + [{"ENGINE": "slow", "ENGINE2": "fast"}])
+    # -- switch(...)
+    tbl = [["fast", ["c", "exact"]], ["exact", opt("WHEN_EXACT", default=Din)], ["auto", ["c", "auto"]]]
+    row("switch over an Option", "switch(Option(K, 'auto', domain=list), {...})", ["switch", base, tbl, None], cev)
+    row("switch over an Option", "switch(Option(K, 'auto', domain=list), {...}, 'bogus')", ["switch", base, tbl, ["c", "bogus"]], cev)
+    row("switch over an Option", "switch(Option(K, 'fast', domain=<pred>), {...}, Option(K2, 'auto', domain=list))",
+        ["switch", opt(default=Din, domain=["pred", "in-fes"]), tbl, opt("ENGINE2", default=D, domain=["cont", "list", DOM])],
+        cev + [{"ENGINE": "slow", "ENGINE2": "fast"}, {"ENGINE": "bogus", "ENGINE2": "exact"}])
+    row("switch over an Option", "switch('K', {...}, 'slow')", ["switch", ["str", "ENGINE"], tbl, ["c", "slow"]], cev)
+    row("switch over an Option", "switch('K', {...})", ["switch", ["str", "ENGINE"], tbl, None], cev)
+    # -- coalesce(...)
+    row("coalesce over Options", "coalesce(Option(K, 'auto', domain=list), Value('exact'))", ["coalesce", [base, ["c", "exact"]]], std)
+    row("coalesce over Options", "coalesce(Option(K), Option(K2, 'auto', domain=list))",
+        ["coalesce", [opt(), opt("ENGINE2", default=D, domain=["cont", "list", DOM])]],
+        std + [{"ENGINE2": "fast"}, {"ENGINE2": "bogus"}, {"ENGINE": "slow", "ENGINE2": "fast"}])
+    row("coalesce over Options", "coalesce(Option(K, domain=list), Option(K2, domain=list))",
+        ["coalesce", [opt(domain=["cont", "list", DOM]), opt("ENGINE2", domain=["cont", "list", DOM])]],
+        std + [{"ENGINE2": "fast"}, {"ENGINE2": "bogus"}, {"ENGINE": "bogus", "ENGINE2": "exact"}, {"ENGINE": "slow", "ENGINE2": "fast"}])
+    dev = ("Coalesce.keys() names the first member that validates; Option.validate / keys accept an absent key whose "
+           "default is outside the domain, evaluate does not: the fingerprint lacks the keys of the member that gave "
+           "the value (OX_PROBES)")
+    row("coalesce over Options", "coalesce(Option(K, 'auto', domain=list), Option(K2, 'fast', domain=list))",
+        ["coalesce", [base, opt("ENGINE2", default=Din, domain=["cont", "list", DOM])]],
+        std + [{"ENGINE2": "exact"}, {"ENGINE2": "bogus"}, {"ENGINE": "bogus", "ENGINE2": "exact"}], nofp=dev)
+    row("coalesce over Options", "coalesce(Option(K, 'auto', domain=list), Option(K2, 'auto', domain=<pred>))",
+        ["coalesce", [base, opt("ENGINE2", default=D, domain=["pred", "in-fes"])]], std + [{"ENGINE2": "exact"}, {"ENGINE2": "bogus", "A": 1}],
+        nofp=dev)
+    assert len({r["id"] for r in rows}) == len(rows)
+    return rows
+
+
+OFORM_ALWAYS_DETERMINABLE = {"default, no domain", "default_factory"}      # (an Option with a default and no domain)
+OFORM_ROWS = oform_rows()
+OFORMS = {r["id"]: r for r in OFORM_ROWS}
+
+
+def oform_case(row, thorough, salt=0):
+    """the directed history of one row: a dataset with a default implementation (and a callback), an abstract one,
+    an interface with an abstract member, a member with a default that implementations override and one they do
+    not -- all dispatching on the row's expression dd1, implementations registered under exactly row["reg"] --
+    evaluated under every options dictionary of the row (twice: stored entries), then once more after a late
+    registration of the allowed value that had none"""
+    A = ("A", {"d": "a0"})
+    impls = [L("dflt", [A]), L("m_b", [A]), L("m_c", [A])]
+    disps = [DISPS[0], {"key": ox_key(1), "map": [], "ox": row["ox"]}]
+    if row.get("nofp"):
+        disps[1]["nofp"] = row["nofp"]
+    X = ["ds", 1]
+    ops = [["new", 0, X, 0, 1], ["new", 1, X, None, None],
+           ["iface", 0, X, [["a", 2, "ann", None, None], ["b", 3, "fn", 1, None], ["c", 4, "ds", 2, 7]]]]
+    nd = 5
+    if thorough and row["ox"][0] != "str":      # re-dispatched before any evaluation
+        impls.append(L("s_d", [A]))
+        ops += [["new", 5, ["key", "K9"], len(impls) - 1, None], ["setd", 5, X]]
+        nd = 6
+    for j, v in enumerate(row["reg"]):
+        base = len(impls)
+        impls += [L("r%d" % j, [A]), L("ia%d" % j, [A]), L("ib%d" % j, [A])]
+        v = enc(v)
+        if (j + salt) % 3 == 0:
+            ops += [["reg", 0, v, base], ["reg", 1, v, base]]
+        elif (j + salt) % 3 == 1:
+            ops += [["ovl", [[0, [v]], [1, [v]]], base]]
+        else:
+            ops += [["ovl", [[1, [v]]], base], ["reg", 0, v, base]]
+        if nd == 6:
+            ops += [["reg", 5, v, base]]
+        ops += [["impl", [0], [v], [["a", base + 1], ["b", base + 2]]]]
+    # every dictionary carries its own value of A, which every implementation reads: the fingerprints of two
+    # dictionaries differ whatever the dispatch read (known finding F19 -- the keys read by a dispatch that then
+    # FAILS are not in the fingerprint -- would otherwise let {K: <outside the domain>} reproduce the entry
+    # stored under {}; that is recorded by `oform_probe`, outside the violation oracle)
+    evals = [dict(o, A=10 + n) for n, o in enumerate(row["evals"])]
+    for n, o in enumerate(evals):
+        # (quick: both datasets and one interface member in turn; thorough: everything)
+        ops += [["eval", d, o] for d in (range(nd) if thorough else (0, 1, 2 + (n + salt) % 3))]
+    # stored entries: the same dictionaries again, in another order
+    again = evals[::-1] if thorough else evals[salt % 2::2][::-1]
+    for n, o in enumerate(again):
+        ops += [["eval", d, o] for d in ((0, 1, 2, 3) if thorough else (0, 2 + (n + salt) % 3)[:1 + n % 2])]
+    return {"impls": impls, "disps": disps, "ops": ops, "oform": row["id"]}
+
+
+def oform_cases(seed, thorough):
+    return [oform_case(r, thorough, seed + i) for i, r in enumerate(OFORM_ROWS)]
+
+
+def oform_entry(per, rid):
+    return per.setdefault(rid, {"programs": 0, "evaluations": 0, "determinable_registered": 0,
+                                "determinable_unregistered": 0, "undeterminable": 0, "registered_selected": 0,
+                                "default_used": 0, "evaluation_error": 0, "oracle_failures": 0})
+
+
+def oform_tally(case, res, per, ways):
+    """per row / per way, measured on this run: the evaluations by what the reference reading says of the dispatch
+    (determinable and registered / determinable and unregistered / undeterminable) and by what the oracle accepted
+    as their outcome (a registered implementation, the default implementation, an evaluation error)"""
+    row = OFORMS[case["oform"]]
+    evs = [(k, op) for k, op in enumerate(case["ops"]) if op[0] == "eval"]
+    obs = [o for o in res["obs"].split(" | ") if o.startswith(("val=", "err="))]
+    if len(evs) != len(obs):
+        raise Infra("C07: %d evaluations, %d observations for %s" % (len(evs), len(obs), row["id"]))
+    bad_ops = {f["op"] for f in res["fails"]}
+    ref = Ref(case)
+    for e in (oform_entry(per, row["id"]), oform_entry(ways, row["way"])):
+        e["programs"] += 1
+    for (k, op), o in zip(evs, obs):
+        ref.advance(k)
+        dv, impl, selerr = ref.select(op[1], op[2])
+        r = ref.ds[op[1]]
+        for e in (oform_entry(per, row["id"]), oform_entry(ways, row["way"])):
+            e["evaluations"] += 1
+            if dv[0] == "undet":
+                e["undeterminable"] += 1
+            elif dv[1] in r["table"]:
+                e["determinable_registered"] += 1
+            else:
+                e["determinable_unregistered"] += 1
+            if k in bad_ops:
+                e["oracle_failures"] += 1
+            elif o.startswith("err="):
+                e["evaluation_error"] += 1
+            elif dv[0] == "ok" and dv[1] in r["table"]:
+                e["registered_selected"] += 1
+            else:
+                e["default_used"] += 1
+
+
 SPELL_SHAPES = [(disp, cb) for disp in (["key", "K"], ["keyd", "K", "x"], ["ds", 0], ["missing"]) for cb in (None, 1)]
 
 
@@ -2251,6 +3175,8 @@ def shrink(case, still_bad):
         for k, op in enumerate(cur["ops"]):
             if op[0] == "eval":
                 for key in list(op[2]):
+                    if key == "A" and has_ox(cur):     # (what keeps two dictionaries of that family apart: F19)
+                        continue
                     o2 = {a: b for a, b in op[2].items() if a != key}
                     c = {"impls": cur["impls"], "disps": cur["disps"],
                          "ops": cur["ops"][:k] + [["eval", op[1], o2]] + cur["ops"][k + 1:]}
@@ -2370,20 +3296,20 @@ def sweep(cases, stream, findings, stats, max_findings=4, collect=None, results=
                 stats["evaluations"] += 1
         if res.get("crash"):
             raise Infra("C07 harness crash on %s: %s" % (json.dumps(case)[:400], res["crash"]))
-        bad_corr = res["obs"] != mline
+        bad_corr = obs_differ(case, res["obs"], mline)
         stats["compared"] += 1
         if bad_corr and nfound < max_findings:
             nfound += 1
 
             def still(cands):
-                return [r["obs"] != m and not r.get("crash") for r, m in evaluate_cases(cands)]
+                return [obs_differ(c_, r["obs"], m) and not r.get("crash") for c_, (r, m) in zip(cands, evaluate_cases(cands))]
 
             small = shrink(case, still)
             (r2, m2), = evaluate_cases([small])
-            if r2["obs"] == m2:          # must reproduce when run alone
+            if not obs_differ(small, r2["obs"], m2):          # must reproduce when run alone
                 small = case
                 (r2, m2), = evaluate_cases([small])
-                if r2["obs"] == m2:
+                if not obs_differ(small, r2["obs"], m2):
                     raise Infra("C07: a disagreement seen in a batch does not reproduce in isolation: "
                                 + json.dumps(case)[:300])
             findings.append(Finding("correspondence",
@@ -2456,14 +3382,40 @@ def explore(ctx):
     assert all(valid(c) and not has_trigger(c) for c in xm)
     sc = spelling_cases(ctx.seed, thorough)
     assert all(valid(c) and not has_trigger(c) for c in sc)
-    pool = ThreadPoolExecutor(max_workers=5)
+    of = oform_cases(ctx.seed, thorough)
+    assert all(valid(c) and not has_trigger(c) for c in of)
+    pool = ThreadPoolExecutor(max_workers=7)
+    fut_of = pool.submit(run_impl_chunks, of, 6 if thorough else 4)
+    fut_op = pool.submit(run_impl, [{"probe": "option-dispatch"}])
     fut_sc = pool.submit(run_impl_chunks, sc, 2)
     fut_main = pool.submit(lambda: list(zip(run_impl_chunks(main, 2), run_model(main))))
     fut_xm = pool.submit(run_impl_chunks, xm, 4 if thorough else 2)
     fut_xd = pool.submit(run_impl_chunks, xd, 6 if thorough else 2)
     fut_pr = pool.submit(run_impl, [{"probe": "factory-keywords"}])
     pool.shutdown(wait=False)
-    # directed family: every spelling of the dataset factories (first: its replays are the smallest)
+    # directed family: every way an Option-based dispatch can or cannot be determined
+    ostats, ocoll, oper, oways = new_stats(), [], {}, {}
+    of_model = run_model(of)
+    sweep(of, "option-dispatch", findings, ostats, max_findings=2, collect=ocoll,
+          results=list(zip(fut_of.result(), of_model)))
+    nofp_dev = {}
+    for c, res in ocoll:
+        oform_tally(c, res, oper, oways)
+    for c, (res, mline) in zip(of, zip([r for _, r in ocoll], of_model)):
+        if c["disps"][1].get("nofp"):
+            a, b = res["obs"].split(" | "), mline.split(" | ")
+            nofp_dev[c["oform"]] = {"why": c["disps"][1]["nofp"],
+                                    "observations_differing_in_the_fingerprint_only":
+                                        sum(1 for x, y in zip(a, b) if x != y and _FP.sub("", x) == _FP.sub("", y)),
+                                    "first": next(([x, y] for x, y in zip(a, b) if x != y), None)}
+    need = ("determinable_registered", "determinable_unregistered", "registered_selected", "default_used",
+            "evaluation_error")
+    if set(oper) != set(OFORMS) or not all(e["evaluations"] for e in oper.values()) or not all(
+            e["oracle_failures"] or (all(e[n] for n in need) and (e["undeterminable"] or w in OFORM_ALWAYS_DETERMINABLE))
+            for w, e in oways.items()):
+        raise Infra("C07: the Option-dispatch family did not meet, in every way it lists, a dispatch that is "
+                    "determinable and registered, determinable and unregistered, and undeterminable")
+    # directed family: every spelling of the dataset factories (its replays are small)
     sstats, scoll, mcoll, sper = new_stats(), [], [], {}
     sweep(sc, "spelling", findings, sstats, max_findings=3, collect=scoll,
           results=list(zip(fut_sc.result(), run_model(sc))))
@@ -2511,14 +3463,18 @@ def explore(ctx):
                                        (e["oracle_failures"] or (e["default_used"] and e["evaluation_error"]))
                                        for e in per.values()):
         raise Infra("C07: the dispatch-failure family did not cover every row of the exception table")
-    distinct |= {json.dumps(c, sort_keys=True) for c in xm + xd + sc}
-    nontrivial |= {json.dumps(c, sort_keys=True) for c in xm + xd + sc}
+    distinct |= {json.dumps(c, sort_keys=True) for c in xm + xd + sc + of}
+    nontrivial |= {json.dumps(c, sort_keys=True) for c in xm + xd + sc + of}
     samples = [json.dumps(c["ops"])[:600] for c in (main[1], main[6], main[len(corpus()) + 5], main[-1], trig[0])]
     samples += [json.dumps({"disps": xm[0]["disps"], "ops": xm[0]["ops"]})[:700], json.dumps(xd[0]), json.dumps(xd[-1])]
     samples += [json.dumps(sc[len(sc) // 3]["ops"])[:700],
                 Gen({"impls": sc[len(sc) // 3]["impls"], "disps": DISPS, "ops": sc[len(sc) // 3]["ops"][:2]}).program()]
+    osample = next(c for c in of if c["oform"] == "Option(K, 'auto', domain=list)")
+    samples += [json.dumps({"disps": osample["disps"][1:], "ops": osample["ops"]})[:900],
+                "\n".join(ox_lines("dd1", 1, of[len(of) // 2]["disps"][1]["ox"]))]
     (probe,) = fut_pr.result()
-    for st in (xstats, dstats, sstats):
+    (oprobe,) = fut_op.result()
+    for st in (xstats, dstats, sstats, ostats):
         for k in ("programs", "evaluations", "compared"):
             stats[k] += st[k]
     cov = {
@@ -2557,6 +3513,32 @@ def explore(ctx):
                              "oracle_failures": sum(e["oracle_failures"] for e in sper.values()),
                              "per_spelling": sper,
                              "not_in_the_violation_oracle": probe.get("probe", [])},
+                         "option_dispatch_family": {
+                             "what": "the dispatch is an Option-based expression (rows of oform_rows: the key absent "
+                                     "without / with a default, the default inside / outside a domain given as a "
+                                     "container, a predicate, an Evaluatable, a labrea.functions helper; the key "
+                                     "present inside / outside the domain; None and falsy values; type= annotations; "
+                                     "templated values; dotted keys and the string form; members of an "
+                                     "Option.namespace; default_factory; the key pinned by WithOptions / "
+                                     "WithDefaultOptions / Dataset.with_options; Option >> f, case, switch, coalesce "
+                                     "over such Options).  The harness computes from the documented reading of the "
+                                     "expression -- without labrea -- the dispatch value of every evaluation, or that "
+                                     "there is none, and the option keys it was read from; the model is told that and "
+                                     "nothing else.  Per row: a dataset with a default implementation and a callback, "
+                                     "an abstract dataset, an interface with an abstract member, a member with a "
+                                     "default that is overridden and one that is not, implementations registered "
+                                     "under exactly the values in play (the out-of-domain default among them).  The "
+                                     "counts are measured on this run by the reference reading (determinable_*, "
+                                     "undeterminable) and by the outcome the oracle accepted (registered_selected, "
+                                     "default_used, evaluation_error)",
+                             "rows": len(OFORM_ROWS),
+                             "model_compared_histories": ostats["programs"],
+                             "observations": ostats["obs"],
+                             "oracle_failures": sum(e["oracle_failures"] for e in oper.values()),
+                             "per_way": oways,
+                             "per_form": oper,
+                             "compared_without_fingerprints": nofp_dev,
+                             "not_in_the_violation_oracle": oprobe.get("probe", [])},
                          "dispatch_failure_family": {
                              "what": "a computed dispatch expression fails inside user code with the row's "
                                      "exception; per_class counts are measured on this run: evaluations whose "
@@ -2632,7 +3614,7 @@ def replay(ctx, payload):
     kid = classify({"case": case, "fails": res["fails"]})
     if kid:
         print("classified  : known finding", kid)
-    bad = res["obs"] != mline or bool(res["fails"])
+    bad = obs_differ(case, res["obs"], mline) or bool(res["fails"])
     print("verdict     :", "STILL FAILS" if bad else "passes")
     return 1 if bad else 0
 
